@@ -77,7 +77,11 @@ def cases(tier, rng):
                 [["obj", "G", 5], ["obj", "C", 0], ["obj", "C", 9], ["obj", "E", 4]], [["obj", "B", 6], ["obj", "E", 3]],
                 # spelled across an octave line: the PITCH decides (Cb-9 is B-8, B#-7 is C-8, Fb-7 is E-7, E#-0 is F-0, Cb-0 is below C-0)
                 [["obj", "Cb", 9]], [["obj", "C", 4], ["obj", "Cbb", 9]], [["obj", "B#", 7]], [["obj", "Fb", 7]], [["obj", "E#", 0]],
-                [["obj", "Cb", 0]], [["obj", "B#", 8]], [["obj", "Dbb", 3], ["obj", "Fb", 3]]]
+                [["obj", "Cb", 0]], [["obj", "B#", 8]], [["obj", "Dbb", 3], ["obj", "Fb", 3]],
+                # exactly six notes (one per guitar string) and seven
+                [["obj", n_, o_] for n_, o_ in (("E", 3), ("A", 3), ("D", 4), ("G", 4), ("B", 4), ("E", 5))],
+                [["obj", n_, o_] for n_, o_ in (("E", 3), ("A", 3), ("D", 4), ("G", 4), ("B", 4), ("E", 5), ("A", 5))],
+                [["obj", n_, o_] for n_, o_ in (("E", 3), ("A", 3), ("D", 4), ("G", 4), ("B", 4))]]
         yield Case("track.run", [instr, [["add_raw", r, 4] for r in raws]], "instrument/raw-list/" + instr, kind=("rawrange", instr))
     # a free-meter bar (0, 0) is never full: everything added after it lands in that one bar
     for instr in ("none", "Piano"):
@@ -247,6 +251,8 @@ def oracle(c, obs):
         for op, st in zip(c["args"][1], obs):
             ps = [12 * o + NATURAL[n[0]] + net(n) for _, n, o in op[1]]
             inside = lo is None or all(lo <= p <= hi for p in ps)
+            if instr == "Guitar" and len(ps) > 6:
+                inside = False                      # at most one note per string
             if inside and isinstance(st[0], Err):
                 return "a list of notes inside the instrument's range was refused"
             if not inside and st[0] != Err("InstrumentRangeError"):
